@@ -37,7 +37,7 @@ TABLE = {
        "the unconditional audience check and the every-restriction shape of "
        "for_me, the recipient gate, provenance of the own endpoints and the "
        "came_from gate. The run-time cross product of message shapes is not "
-       "executed. R9: no misplaced positional argument in the response-parsing modules. R10: the switch that turns the solicitation/destination checks on (asynchop) is off only for SOAP and PAOS - abstractly evaluated for a binding value that is none of the named ones.",
+       "executed. R9: no misplaced positional argument in the response-parsing modules. R10: the switch that turns the solicitation/destination checks on (asynchop) is off only for SOAP and PAOS - abstractly evaluated for a binding value that is none of the named ones. R11: the outstanding-request set handed to the response object is the caller's parameter; nothing kept on the client object from earlier calls is mixed in.",
   ref="Part 3 C05"),
  "C06": dict(
   tech="table agreement (samlp constants vs STATUSCODE2EXCEPTION), "
@@ -71,7 +71,7 @@ TABLE = {
        "that the fallthrough raises and UnknownSystemEntity is never caught, "
        "that the entity consulted is the request Issuer, that response_args "
        "uses only pick_binding's answer, and the store-side "
-       "unknown/unsupported/binding-filter logic. R5: every typed accessor of the store asks service() for the caller's binding (or the documented default) and lets its refusal propagate. R6: Server.verify_assertion_consumer_service answers True only under an equality of the requested URL/index itself with a value read from the requester's registered consumer services (no comparison of normalised or partial forms). R5 additionally: every typed accessor asks the store for the service it is named after (helpers expanded).",
+       "unknown/unsupported/binding-filter logic. R5: every typed accessor of the store asks service() for the caller's binding (or the documented default) and lets its refusal propagate. R6: Server.verify_assertion_consumer_service answers True only under an equality of the requested URL/index itself with a value read from the requester's registered consumer services (no comparison of normalised or partial forms). R5 additionally: every typed accessor asks the store for the service it is named after (helpers expanded). R7: the metadata sources are constructed with each option bound to the parameter it is named after, also through super().__init__ / Base.__init__ (a crossed check_validity would serve expired requesters).",
   ref="Part 3 C09"),
  "C10": dict(
   tech="dominance/flag-sensitive pipeline rule, derivation of must and "
@@ -164,7 +164,7 @@ TABLE.update({
        "unknown/unsupported/binding filter, entity isolation and key-use "
        "filter, and whether every caller acts on the signature verdict. "
        "Three genuine violations are recorded as known findings. Exactness "
-       "for arbitrary federation documents is not decided. M7 (generation side of the round trip): do_key_descriptor emits one KeyDescriptor per configured certificate under the use it is configured for, unconditionally within its loop. M8: memoisation keys complete in mdstore/metadata/config; M9: no misplaced positional argument when the store is built and loaded. M10: do_endpoints publishes a configured endpoint index unchanged and uses the running counter only under a presence test (0 is a legal index). M2/M6 compare the validity tests, duplicate test and commit key with temporaries expanded. M12 (= C17.R7): a KeyDescriptor without `use` is served for every requested use.",
+       "for arbitrary federation documents is not decided. M7 (generation side of the round trip): do_key_descriptor emits one KeyDescriptor per configured certificate under the use it is configured for, unconditionally within its loop. M8: memoisation keys complete in mdstore/metadata/config; M9: no misplaced positional argument when the store is built and loaded. M10: do_endpoints publishes a configured endpoint index unchanged and uses the running counter only under a presence test (0 is a legal index). M2/M6 compare the validity tests, duplicate test and commit key with temporaries expanded. M12 (= C17.R7): a KeyDescriptor without `use` is served for every requested use. M9 also resolves super().__init__ / Base.__init__ to the inherited initialiser. M13: the option mapping MetadataStore.load / imp fill per source and splat into the source's constructor is created in that call, never an object kept on the store.",
   ref="Part 3 C16"),
  "C17": dict(
   tech="statement-order rule in the common block, move-not-copy check, "
@@ -189,7 +189,7 @@ TABLE.update({
        "quoted, new ids derive from fresh randomness with a collision retry, "
        "persistent lookup precedes issue and compares both qualifiers, the "
        "manage-name-id sequence, no undefined names. Histories and run-time "
-       "uniqueness are not decided. R7: a NameID mapping request returns a stored identifier only under equality of format and SPNameQualifier with the request's policy. R8: find_nameid returns an identifier only if every criterion matches; code() encodes each field unchanged (one-to-one). R1 additionally: a failing entry in remove_local never ends the removal without deleting the user's own record. R9: shared-state rule for the identifier database.",
+       "uniqueness are not decided. R7: a NameID mapping request returns a stored identifier only under equality of format and SPNameQualifier with the request's policy. R8: find_nameid returns an identifier only if every criterion matches; code() encodes each field unchanged (one-to-one). R1 additionally: a failing entry in remove_local never ends the removal without deleting the user's own record. R9: shared-state rule for the identifier database. R10: whatever the database object keeps between calls besides db (a memo of issued identifiers, an index) is invalidated by remove_remote and remove_local.",
   ref="Part 3 C18"),
  "C19": dict(
   tech="derivation of every index into Cache._db, dominance of the expiry "
@@ -199,7 +199,7 @@ TABLE.update({
        "code(name_id) of the method's own subject, that get() returns only "
        "after the expiry test and set()/get() agree on the stored tuple, that "
        "expired/empty sources cannot reach the merge, delete/reset shapes and "
-       "backend neutrality. Histories and shelve semantics are not decided. reset() stores the empty, expired record on every normal path. The cache key function code() is one-to-one; memoisation keys in cache/ident/population are complete. R8: shared-state rule for the cache modules.",
+       "backend neutrality. Histories and shelve semantics are not decided. reset() stores the empty, expired record on every normal path. The cache key function code() is one-to-one; memoisation keys in cache/ident/population are complete. R8: shared-state rule for the cache modules. R9: whatever the cache keeps between calls besides _db (a remembered record, a memo) is rewritten or cleared by delete.",
   ref="Part 3 C19"),
  "C20": dict(
   tech="flag-sensitive shape rules on _run_xmlsec / parse_xmlsec_output / "
